@@ -312,7 +312,7 @@ def build_unit(u, tier, extra_defines=(), tag=""):
     harness = os.path.join(VERIF, u.harness)
     # 1. syntax pre-check with gcc (goto-cc accepts some signature mismatches silently)
     gb0 = os.path.join(udir, "u0.gb")
-    srcs = [harness] + [os.path.join(VERIF, s) if not s.startswith("/") else s for s in u.extra_src]
+    srcs = [harness] + [os.path.join(REPO, s[6:]) if s.startswith("@repo/") else (os.path.join(VERIF, s) if not s.startswith("/") else s) for s in u.extra_src]
     cmd = ["goto-cc"] + repo_flags() + dflags + ["--function", u.entry] + srcs + ["-o", gb0]
     rc, out, err, t, to = sh(cmd, timeout=600, mem_gb=16)
     log = [" ".join(cmd), out, err]
